@@ -9,7 +9,8 @@ for m in sorted(glob.glob(os.path.join(HERE, "seeded", "*", "meta.json"))):
     w = d.get("what_was_run", {})
     rows.append((name, d.get("property"), "yes" if d.get("valid_seed") else "no", "CAUGHT" if d.get("caught") else "missed",
                  (d.get("summary") or "").replace("|", "/")[:150], "; ".join(w.get("violation_signatures", [])[:2]).replace("|", "/")[:140],
-                 d.get("note", "")))
+                 (d.get("note", "") + ((" [re-run at " + d["revalidated"]["repo_commit"] + ": " + ("does not apply" if not d["revalidated"]["applies"] else
+                                       ("caught" if d["revalidated"]["caught_by_quick_check"] else "MISSED")) + "]") if d.get("revalidated") else "")).strip()))
 with open(os.path.join(HERE, "seeded", "SUMMARY.md"), "w") as f:
     f.write("# Seeded property-breaking changes (written by independent sub-agents) and the checks that catch them\n\n")
     f.write("`valid` = the change applies to the current /repo HEAD, the 490 tests still pass with it, its demo fails with it and passes without it.\n")
